@@ -36,7 +36,9 @@ func main() {
 
 	counterCampaign(o, r, m)
 	backoffCampaign(o, r, m)
+	profLimCampaign(o, r, m)
 	mwCampaign(o, r, m)
+	timedCampaign(o, r, m)
 	backoffExpiryFinding(o, r)
 
 	r.ModelOps = r.Evaluations
@@ -528,7 +530,7 @@ func mwCampaign(o *hlib.Opts, r *hlib.Result, m *hlib.Model) {
 		pdb := stack.NotFoundProfileDB()
 		if hasProf {
 			pdb.OnProfileByLinkedIP = func(_ context.Context, ip netip.Addr) (*agd.Profile, *agd.Device, error) {
-				if ip == profIP {
+				if isProfIP(ip) {
 					return prof, dev, nil
 				}
 
@@ -559,7 +561,7 @@ func mwCampaign(o *hlib.Opts, r *hlib.Result, m *hlib.Model) {
 		for j := 0; j < nev; j++ {
 			ip := genAddr(rng)
 			if hasProf && rng.IntN(2) == 0 {
-				ip = profIP
+				ip = profIPs[rng.IntN(len(profIPs))]
 			}
 			qt := uint16(dns.TypeA)
 			if rng.IntN(10) == 0 {
@@ -602,7 +604,7 @@ func mwCampaign(o *hlib.Opts, r *hlib.Result, m *hlib.Model) {
 			// The transport layer hands the middleware an unmapped address
 			// (netutil.NetAddrToAddrPort).
 			eff := ip.Unmap()
-			isProf := hasProf && eff == profIP
+			isProf := hasProf && isProfIP(eff)
 			lines = append(lines, fmt.Sprintf("mw %s %d %s %d %s %s", b2s(limited), now, addrArgs(eff), qt, lenArg, b2s(isProf)))
 		}
 		if time.Since(t0) > 400*time.Millisecond {
@@ -634,3 +636,235 @@ func mwCampaign(o *hlib.Opts, r *hlib.Result, m *hlib.Model) {
 }
 
 var errNotFound = profiledbNotFound()
+
+// profIPs are the linked addresses of the fixture profile's devices: several
+// subnets, so that a profile's ClientSubnets can include some and exclude
+// others.
+var profIPs = []netip.Addr{
+	netip.MustParseAddr("10.0.0.1"), netip.MustParseAddr("10.0.1.2"), netip.MustParseAddr("10.1.0.3"),
+	netip.MustParseAddr("10.1.1.0"), netip.MustParseAddr("2001:0:1::1"),
+}
+
+func isProfIP(ip netip.Addr) bool {
+	for _, p := range profIPs {
+		if p == ip {
+			return true
+		}
+	}
+
+	return false
+}
+
+// profLimCampaign drives agd.DefaultRatelimiter directly: Check and
+// CountResponses from addresses inside and outside the profile's subnets.  All
+// events of a case happen within a few hundred microseconds, far inside the
+// fixed one-second window; slow cases are discarded.
+func profLimCampaign(o *hlib.Opts, r *hlib.Result, m *hlib.Model) {
+	rng := o.Rand("proflim")
+	n := 400
+	if o.Thorough() {
+		n = 5000
+	}
+	ctx := context.Background()
+	for i := 0; i < n; i++ {
+		rc := &agd.RatelimitConfig{RPS: uint32(rng.IntN(6)), Enabled: true}
+		for k := rng.IntN(3); k > 0; k-- {
+			rc.ClientSubnets = append(rc.ClientSubnets, genPrefix(rng))
+		}
+		est := uint64(100 + rng.IntN(3)*100)
+		lim := agd.NewDefaultRatelimiter(rc, datasize.ByteSize(est))
+		twin := agd.NewDefaultRatelimiter(rc, datasize.ByteSize(est))
+		inSub := func(ip netip.Addr) bool {
+			if len(rc.ClientSubnets) == 0 {
+				return true
+			}
+			for _, p := range rc.ClientSubnets {
+				if p.Contains(ip) {
+					return true
+				}
+			}
+
+			return false
+		}
+		profLine := fmt.Sprintf("prof %d %d", rc.RPS, est)
+		for _, p := range rc.ClientSubnets {
+			profLine += " " + prefArgs(p)
+		}
+		lines := []string{"cfg 0 0 0 1 1 1 32 1 1 128 0", profLine}
+		pre := len(lines)
+		var gots []string
+		t0 := time.Now()
+		nIn, nOut, drops := 0, 0, 0
+		for j := 5 + rng.IntN(30); j > 0; j-- {
+			ip := genAddr(rng)
+			now := spin()
+			if rng.IntN(5) == 0 {
+				resp := mkResp(dns.TypeA, 40+rng.IntN(500))
+				lim.CountResponses(ctx, resp, ip)
+				if inSub(ip) {
+					twin.CountResponses(ctx, resp, ip)
+				}
+				lines = append(lines, fmt.Sprintf("presp %d %s %d", now, addrArgs(ip), resp.Len()))
+				gots = append(gots, "ok")
+
+				continue
+			}
+			res := lim.Check(ctx, mkReq(dns.TypeA), ip)
+			got := map[agd.RatelimitResult]string{agd.RatelimitResultPass: "pass", agd.RatelimitResultDrop: "drop",
+				agd.RatelimitResultUseGlobal: "global"}[res]
+			if inSub(ip) {
+				nIn++
+				// Oracle: traffic from outside the profile's subnets must
+				// neither use nor consume the profile's limit.
+				if res2 := twin.Check(ctx, mkReq(dns.TypeA), ip); res2 != res {
+					r.Violate("profile-limit-affected-by-outside-subnets", fmt.Sprintf(
+						"profile limiter (rps %d, subnets %v): verdict %s for in-subnet %s differs from the verdict without out-of-subnet traffic",
+						rc.RPS, rc.ClientSubnets, got, ip), append([]string{}, lines...))
+				}
+			} else {
+				nOut++
+				if res != agd.RatelimitResultUseGlobal {
+					r.Violate("profile-limit-applied-outside-subnets", fmt.Sprintf("out-of-subnet %s got %s", ip, got), nil)
+				}
+			}
+			if got == "drop" {
+				drops++
+			}
+			lines = append(lines, fmt.Sprintf("pcheck %d %s", now, addrArgs(ip)))
+			gots = append(gots, got)
+		}
+		if time.Since(t0) > 300*time.Millisecond {
+			r.Count("proflim.discarded_slow")
+
+			continue
+		}
+		answers := m.Batch(lines)[pre:]
+		for j := range gots {
+			if gots[j] != answers[j] {
+				r.Disagree("proflim", fmt.Sprintf("DefaultRatelimiter=%s model=%s at step %d", gots[j], answers[j], j),
+					map[string]any{"campaign": "proflim", "ops": lines[:pre+j+1]})
+
+				break
+			}
+		}
+		r.Case(strings.Join(stripTimes(lines), ";"), nIn > 0 && nOut > 0 && drops > 0)
+		r.Count("proflim.cases")
+		if nIn > 0 && nOut > 0 && drops > 0 {
+			r.Count("proflim.mixed")
+			r.Sample(map[string]any{"campaign": "proflim", "ops": truncate(lines, 8)}, 12)
+		}
+		r.Traces++
+	}
+}
+
+// timedCampaign exercises cache-entry expiry (Period, Duration) and a
+// millisecond-scale window with real sleeps on a 100 ms grid.  All
+// boundaries (30 ms window, 250 ms expiry) lie at least 30 ms away from any
+// grid point, measured stamps are passed to the model, and a schedule whose
+// measured stamps drift more than 20 ms from the plan is discarded.
+func timedCampaign(o *hlib.Opts, r *hlib.Result, m *hlib.Model) {
+	rng := o.Rand("timed")
+	n := 12
+	if o.Thorough() {
+		n = 96
+	}
+	type sched struct {
+		c      *bcfg
+		bursts []int
+		lines  []string
+		gots   []string
+		ok     bool
+	}
+	scheds := make([]*sched, n)
+	for i := range scheds {
+		exp := []time.Duration{250 * time.Millisecond, time.Hour}
+		c := &bcfg{count: uint(2 + rng.IntN(2)), period: exp[rng.IntN(2)], duration: exp[rng.IntN(2)], est: 100000,
+			c4: uint(1 + rng.IntN(2)), i4: []time.Duration{30 * time.Millisecond, 250 * time.Millisecond}[rng.IntN(2)], l4: 24,
+			c6: 1, i6: time.Hour, l6: 48}
+		if i == 0 {
+			// The schedule of seeded mutant C09-hit-expiry-slides.
+			c = &bcfg{count: 3, period: time.Hour, duration: 250 * time.Millisecond, est: 100000, c4: 1,
+				i4: 30 * time.Millisecond, l4: 24, c6: 1, i6: time.Hour, l6: 48}
+		}
+		sc := &sched{c: c}
+		for g := 0; g < 6; g++ {
+			sc.bursts = append(sc.bursts, rng.IntN(4))
+		}
+		if i == 0 {
+			sc.bursts = []int{2, 2, 2, 1, 1, 0}
+		}
+		scheds[i] = sc
+	}
+	ctx := context.Background()
+	ip := netip.MustParseAddr("192.0.2.7")
+	done := make(chan struct{})
+	for _, sc := range scheds {
+		go func(sc *sched) {
+			defer func() { done <- struct{}{} }()
+			lim := sc.c.real()
+			sc.lines = sc.c.modelLines()
+			sc.ok = true
+			start := time.Now()
+			for g, b := range sc.bursts {
+				target := start.Add(time.Duration(g) * 100 * time.Millisecond)
+				time.Sleep(time.Until(target))
+				for k := 0; k < b; k++ {
+					now := time.Now()
+					if d := now.Sub(target); d < 0 || d > 20*time.Millisecond {
+						sc.ok = false
+					}
+					drop, _, err := lim.IsRateLimited(ctx, mkReq(dns.TypeA), ip)
+					hlib.Must(err)
+					if after := time.Since(now); after > 5*time.Millisecond {
+						sc.ok = false
+					}
+					sc.gots = append(sc.gots, map[bool]string{true: "drop", false: "pass"}[drop])
+					sc.lines = append(sc.lines, fmt.Sprintf("req %d %s %d", now.UnixNano(), addrArgs(ip), dns.TypeA))
+				}
+			}
+		}(sc)
+	}
+	for range scheds {
+		<-done
+	}
+	for i, sc := range scheds {
+		if !sc.ok {
+			r.Count("timed.discarded_jitter")
+
+			continue
+		}
+		pre := len(sc.c.modelLines())
+		answers := m.Batch(sc.lines)[pre:]
+		drops, passes := 0, 0
+		for j := range sc.gots {
+			if sc.gots[j] == "drop" {
+				drops++
+			} else {
+				passes++
+			}
+			if sc.gots[j] != answers[j] {
+				r.Disagree("timed", fmt.Sprintf("schedule %d (bursts %v on a 100 ms grid, window %s, period %s, duration %s): Backoff=%s model=%s at query %d",
+					i, sc.bursts, sc.c.i4, sc.c.period, sc.c.duration, sc.gots[j], answers[j], j),
+					map[string]any{"campaign": "timed", "ops": sc.lines[:pre+j+1]})
+
+				break
+			}
+		}
+		// Oracle for the fixed schedule 0: three pairs 100 ms apart give hits at
+		// 0, 100, 200 ms; the first hit expires at 250 ms, so the single
+		// queries at 300 and 400 ms are neither in the 30 ms window nor in
+		// backoff and must pass.
+		if i == 0 && len(sc.gots) == 8 && (sc.gots[6] != "pass" || sc.gots[7] != "pass") {
+			r.Violate("backoff-outlives-duration", fmt.Sprintf(
+				"limit 1 per 30 ms, backoff after 3 hits, duration 250 ms; pairs at 0/100/200 ms then single queries at 300 and 400 ms: verdicts %v — "+
+					"a subnet stays in backoff although its first hit is older than the backoff duration", sc.gots),
+				map[string]any{"campaign": "timed", "ops": sc.lines})
+		}
+		r.Case(fmt.Sprintf("timed %v %v %v %v %v", sc.bursts, sc.c.i4, sc.c.period, sc.c.duration, sc.c.count), drops > 0 && passes > 0)
+		r.Count("timed.cases")
+		if i < 2 {
+			r.Sample(map[string]any{"campaign": "timed", "bursts_per_100ms": sc.bursts, "ops": truncate(stripTimes(sc.lines), 8)}, 14)
+		}
+		r.Traces++
+	}
+}
